@@ -1,5 +1,5 @@
 """C06 Dropping an operation cancels exactly it and reclaims its state exactly once."""
-from .kernel import ExprBuilder, Loc, access_path, subexprs, variant_edges, is_local
+from .kernel import guarded_by_variant, ExprBuilder, Loc, access_path, subexprs, variant_edges, is_local
 from . import families as fam
 from . import life
 from . import sqe
@@ -31,7 +31,7 @@ def r1_cancel_on_running(r, facts):
     eb = ExprBuilder(f)
     for loc, t in cancels:
         r.inst('cancel call', f.where(loc))
-        r.require(f.edge_dominates(run_edge, loc), 'State::drop/cancel-not-running', 'a cancel request is issued for an operation that is not running', f.where(loc))
+        r.require(guarded_by_variant(f, ves[0], loc), 'State::drop/cancel-not-running', 'a cancel request is issued for an operation that is not running', f.where(loc))
         e = eb.operand(t['args'][1])
         ok = e[0] == 'call' and e[1] == life.USER_DATA and e[2] and e[2][0][0] == 'arg' and e[2][0][1] == 1
         r.require(ok, 'State::drop/cancel-tag', 'the cancel target is not State::user_data(self): %s' % (e,), f.where(loc))
